@@ -49,6 +49,7 @@ type Run struct {
 	Obls      []Obligation
 	floors    []floor
 	unresolved []string
+	skipFloors map[string]bool
 	known     []KnownFinding
 	reviews   []string
 	Rules     map[string]string // rule id -> one-line statement
@@ -124,7 +125,52 @@ func (r *Run) Review(format string, a ...interface{}) {
 // Floor demands that rule matched at least min instances (held+violated);
 // otherwise the rule can no longer see its subject and the run is UNRESOLVED.
 func (r *Run) Floor(rule string, min int, what string) {
+	if r.skipFloors[rule] {
+		return
+	}
 	r.floors = append(r.floors, floor{rule, min, what})
+}
+
+// ViolatedKeys returns the (rule|construct) keys currently violated, after the
+// floors were evaluated; used to compare platform runs.
+func (r *Run) ViolatedKeys() map[string]Obligation {
+	out := map[string]Obligation{}
+	for _, o := range r.Obls {
+		if o.Status == "violated" {
+			out[o.Rule+"|"+o.Key] = o
+		}
+	}
+	return out
+}
+
+// CheckFloors evaluates the floors now (idempotent) and returns the messages.
+func (r *Run) CheckFloors() []string {
+	var out []string
+	for _, f := range r.floors {
+		if n := r.Count(f.rule); n < f.min {
+			out = append(out, fmt.Sprintf("rule %s matched %d instance(s), below its floor of %d (%s)", f.rule, n, f.min, f.what))
+		}
+	}
+	return out
+}
+
+// UnresolvedList exposes the unresolved messages.
+func (r *Run) UnresolvedList() []string { return r.unresolved }
+
+// SkipFloor drops the floors of a rule (used when its obligation source is
+// deliberately not consulted, e.g. host-only inputs in the platform matrix).
+func (r *Run) SkipFloor(rule string) {
+	var out []floor
+	for _, f := range r.floors {
+		if f.rule != rule {
+			out = append(out, f)
+		}
+	}
+	r.floors = out
+	if r.skipFloors == nil {
+		r.skipFloors = map[string]bool{}
+	}
+	r.skipFloors[rule] = true
 }
 
 // Unresolved records that an anchor could not be resolved (exit 2).
